@@ -557,6 +557,36 @@ def _pair_chunk(args):
     return out, n, len(args)
 
 
+def apalache_inductive(cov):
+    """Unbounded argument for the protocol part: Apalache discharges Init => IndInv and
+    IndInv /\\ Next => IndInv' for spec/CacheProtocolInd.tla; a variant whose copy adopts the
+    unverified cache must be refuted (negative control)."""
+    import shutil
+    import subprocess
+    from harness.common import SPEC_DIR
+    d = tlc.prepare("c01/apalache")
+    src = open(os.path.join(SPEC_DIR, "CacheProtocolInd.tla")).read()
+    broken = src.replace("CopyCache == /\\ ent' = VEnt", "CopyCache == /\\ ent' = ent")
+    if broken == src:
+        raise MachineryError("negative control for the Apalache check could not be built")
+    with open(os.path.join(d, "CacheProtocolBroken.tla"), "w") as f:
+        f.write(broken.replace("MODULE CacheProtocolInd", "MODULE CacheProtocolBroken"))
+    res = {}
+    for name, mod, args in (("init_implies_inv", "CacheProtocolInd", ["--init=Init", "--inv=IndInv", "--length=0"]),
+                            ("inv_is_inductive", "CacheProtocolInd", ["--init=IndInit", "--inv=IndInv", "--length=1"]),
+                            ("negative_control", "CacheProtocolBroken", ["--init=IndInit", "--inv=IndInv", "--length=1"])):
+        p = subprocess.run(["apalache-mc", "check"] + args + ["--out-dir=" + os.path.join(d, "out"), mod + ".tla"], cwd=d,
+                           capture_output=True, text=True, timeout=900)
+        ok = "EXITCODE: OK" in p.stdout
+        res[name] = "OK" if ok else ("violation found" if "violation" in p.stdout.lower() or "EXITCODE: ERROR (12)" in p.stdout else "error")
+    shutil.rmtree(os.path.join(d, "out"), ignore_errors=True)
+    cov["apalache_inductive_invariant"] = res
+    if res["init_implies_inv"] != "OK" or res["inv_is_inductive"] != "OK":
+        raise MachineryError("Apalache could not discharge the inductive invariant: %s" % res)
+    if res["negative_control"] == "OK":
+        raise MachineryError("Apalache accepted the broken protocol: the inductive check is vacuous")
+
+
 def main(argv):
     tier = tier_from_args(argv)
     V = Verdict(PROP, tier)
@@ -611,6 +641,9 @@ def main(argv):
     r = tlc.run(d4, "MC_MeshCache", mc_cfg(4, True, ["NoStaleRead"]), timeout=600)
     if r.violated != "NoStaleRead":
         raise MachineryError("spec self-test: a mutator working under the lock without verifying was not detected")
+
+    if tier == "thorough":
+        apalache_inductive(cov)
 
     # histories emitted by TLC at class level
     de = 3 if tier == "quick" else 4
